@@ -1182,6 +1182,14 @@ class KmipEngine(object):
         else:
             return False
 
+    def _get_date_string(self, value):
+        # A KMIP Date-Time is any 64-bit number of seconds. Values far
+        # outside of the calendar range cannot be converted by time.gmtime.
+        try:
+            return time.asctime(time.gmtime(value))
+        except (OverflowError, OSError, ValueError):
+            return str(value)
+
     def _is_valid_date(self, date_type, value, start, end):
         date_type = date_type.value.lower()
 
@@ -1192,9 +1200,9 @@ class KmipEngine(object):
                         "Failed match: object's {} ({}) is less than "
                         "the starting {} ({}).".format(
                             date_type,
-                            time.asctime(time.gmtime(value)),
+                            self._get_date_string(value),
                             date_type,
-                            time.asctime(time.gmtime(start))
+                            self._get_date_string(start)
                         )
                     )
                     return False
@@ -1203,9 +1211,9 @@ class KmipEngine(object):
                         "Failed match: object's {} ({}) is greater than "
                         "the ending {} ({}).".format(
                             date_type,
-                            time.asctime(time.gmtime(value)),
+                            self._get_date_string(value),
                             date_type,
-                            time.asctime(time.gmtime(end))
+                            self._get_date_string(end)
                         )
                     )
                     return False
@@ -1215,9 +1223,9 @@ class KmipEngine(object):
                         "Failed match: object's {} ({}) does not match "
                         "the specified {} ({}).".format(
                             date_type,
-                            time.asctime(time.gmtime(value)),
+                            self._get_date_string(value),
                             date_type,
-                            time.asctime(time.gmtime(start))
+                            self._get_date_string(start)
                         )
                     )
                     return False
